@@ -2,16 +2,15 @@ package main
 
 import (
 	"fmt"
+	"time"
+
 	"verifcheck/internal/core"
-	_ "golang.org/x/tools/go/ssa"
 )
 
 func main() {
-	m, _ := core.Load("/repo", nil)
-	fn := m.FuncByKey["schema.EnumSchema.ValidateCompatibility"]
-	b := fn.Blocks[28]
-	for _, cd := range core.CondsAt(b) {
-		x, neq, ok := core.NilCmp(cd.V)
-		fmt.Printf("%s = %s (%T) true=%v | %v %v %v\n", cd.V.Name(), cd.V.String(), cd.V, cd.True, x, neq, ok)
+	for i := 0; i < 3; i++ {
+		t := time.Now()
+		m, err := core.Load("/repo", nil)
+		fmt.Println(time.Since(t), err, len(m.Funcs))
 	}
 }
